@@ -234,6 +234,7 @@ type e1 struct {
 	relevantFn func(*Term) bool
 	anchors   map[string]bool        // functions named by obligations: analysed modularly, never interpreted in place
 	noInline  func(*FuncInfo) bool
+	valueEq   map[string]bool // eq(result of an interpreted helper, value) facts recorded at helper exits
 	wantIndex bool // also record index/slice expressions as sites (kind "index"): used to justify bounds sites inside helpers
 }
 
@@ -2793,6 +2794,7 @@ func solve(st *fstate, clauses []Clause, b Bind) solveResult {
 	var rec func(ci int, b Bind, used []string) (Bind, []string, bool)
 	var matchAll func(pats []*Term, i int, b Bind, used []string, k func(Bind, []string) bool) bool
 	deferred := map[*Term]int{}
+	var alts map[string][]*Term
 	matchAll = func(pats []*Term, i int, b Bind, used []string, k func(Bind, []string) bool) bool {
 		if i == len(pats) {
 			return k(b, used)
@@ -2849,6 +2851,18 @@ func solve(st *fstate, clauses []Clause, b Bind) solveResult {
 						}
 					}
 				}
+				if lhs.K == "call" || lhs.K == "mcall" || lhs.K == "res" {
+					if alts == nil {
+						alts = stateAlts(st)
+					}
+					for _, v := range rewriteWith(alts, lhs, 24, true) {
+						if len(p.A) == 2 {
+							virts = append(virts, fact("def", lhs, v))
+						} else if v.K == "res" && len(v.A) == 1 {
+							virts = append(virts, fact("def", lhs, v.A[0], mk("const", v.S)))
+						}
+					}
+				}
 				for _, virt := range virts {
 					nb := b.clone()
 					if unify(p, virt, nb) && matchAll(pats, i+1, nb, append(used, "by returned value "+virt.String()), k) {
@@ -2892,6 +2906,28 @@ func solve(st *fstate, clauses []Clause, b Bind) solveResult {
 			if unify(p, fc, nb) {
 				if matchAll(pats, i+1, nb, append(used, fc.String()), k) {
 					return true
+				}
+			}
+		}
+		// modulo definitions: the fact may be spelled with a temporary or a helper call where the clause spells the value
+		if p.S != "def" && p.S != "defx" && p.S != "orig" && p.S != "called" {
+			if alts == nil {
+				alts = stateAlts(st)
+			}
+			if len(alts) > 0 {
+				for _, key := range keys {
+					fc := st.facts[key]
+					if fc.S != p.S || len(fc.A) != len(p.A) {
+						continue
+					}
+					for _, x := range rewriteWith(alts, fc, 48, false) {
+						nb := b.clone()
+						if unify(p, x, nb) {
+							if matchAll(pats, i+1, nb, append(used, fc.String()+" (modulo definitions)"), k) {
+								return true
+							}
+						}
+					}
 				}
 			}
 		}
